@@ -8,7 +8,7 @@
         atmosphere in hydrostatic balance over any orography has zero total tendency;
     (B) column level: the nodal column algebra of the code, explicit + implicit, equals the vertical
         discretisation of the pointwise specification Model/PrimEqSpec.v, grouping stated per theorem;
-    (C) specification level (abstract differential ring): flux form = advective form, the operators as
+    (C) specification level (abstract commutative differential ring): flux form = advective form, the operators as
         coded are div/curl, zonal balanced states (gradient wind / geostrophic) have zero specification
         tendency; the formulas of shallow_water_states.one_layer / multi_layer are balanced.
 
@@ -17,13 +17,11 @@
     (the exactness of products under the transforms); for the temperature equation that statement is
     C04_temperature_modal_invariance's closed form composed with [C05_primeq_column_refines_spec].
 
-    LIMITATION of group (C), stated plainly: the differential-ring hypotheses (linearity, Leibniz,
-    commutation) are assumed for ALL functions [P -> F].  They are consistent only for point types [P]
-    without decidable equality (an indicator function of a point contradicts the Leibniz rule), so no
-    closed instance can be exhibited in Coq; a version restricted to a sub-algebra of smooth fields is
-    missing.  The same identities are executed in a concrete differential ring (exact polynomial
-    calculus on the sphere, class [Fn] of the plugin) as table obligations.  Group (C) theorems
-    therefore carry the suffix [_formal]. *)
+    Group (C) is stated over an ABSTRACT COMMUTATIVE DIFFERENTIAL RING [A] of smooth nodal fields (ring laws,
+    two commuting additive derivations with the Leibniz rule, mu with cos(lat) d mu/dlat = 1 - mu^2,
+    units a, 2, 1 - mu^2).  Non-vacuity: [C05_differential_ring_instance] exhibits every hypothesis in the
+    ring of formal power series in mu over Qc with the non-zero derivation (1 - mu^2) d/dmu, and
+    [C05_solid_body_steady_series] / [C05_sw_solid_body_series] instantiate the balance theorems there. *)
 From Dino Require Import Base.Ops Base.Sums Base.Inst Base.Ord Model.Sigma Thm.Sigma Model.Implicit Model.PrimEq Thm.PrimEq
      Model.PrimEqSpec Thm.PrimEqSpec.
 From Coq Require Import Reals Qcanon.
@@ -130,128 +128,191 @@ Section C05_column.
   Proof. intros; apply refines_momentum; assumption. Qed.
 End C05_column.
 
-(** * (C) specification level *)
+(** * (C) specification level: abstract commutative differential ring of smooth fields *)
 Section C05_spec.
-  Context {F : Type} {o : Ops F} {Fc : FieldC o}.
-  Hypothesis two_nz : two <> 0.
-  Variable P : Type.
-  Variables dlon dmu : (P -> F) -> P -> F.
-  Variable mu : P -> F.
-  Variable a : F.
-  Hypothesis a_nz : a <> 0.
-  Hypothesis dlon_lin : Thm.PrimEq.linear dlon.
-  Hypothesis dmu_lin : Thm.PrimEq.linear dmu.
-  Hypothesis dlon_leib : forall (f g : P -> F) p, dlon (fun q => f q * g q) p = dlon f p * g p + f p * dlon g p.
-  Hypothesis dmu_leib : forall (f g : P -> F) p, dmu (fun q => f q * g q) p = dmu f p * g p + f p * dmu g p.
-  Hypothesis d_commute : forall (f : P -> F) p, dlon (dmu f) p = dmu (dlon f) p.
-  Hypothesis dlon_mu : forall p, dlon mu p = 0.
-  Hypothesis dmu_mu : forall p, dmu mu p = PrimEqSpec.cos2 P mu p.
-  Hypothesis cos2_nz : forall p, PrimEqSpec.cos2 P mu p <> 0.
+  Context {A : Type} {o : Ops A}.
+  Hypothesis Aring : ring_theory (@f0 A o) f1 fadd fmul fsub fopp (@eq A).
+  Hypothesis div_def : forall x y : A, x / y = x * finv y.
+  Variables dlon dmu : A -> A.
+  Variables mu a : A.
+  Hypothesis inv_a : finv a * a = 1.
+  Hypothesis inv_c2 : finv (PrimEqSpec.cos2 mu) * PrimEqSpec.cos2 mu = 1.
+  Hypothesis inv_two : finv (@two A o) * two = 1.
+  Hypothesis dlon_add : forall x y, dlon (x + y) = dlon x + dlon y.
+  Hypothesis dmu_add : forall x y, dmu (x + y) = dmu x + dmu y.
+  Hypothesis dlon_leib : forall x y, dlon (x * y) = dlon x * y + x * dlon y.
+  Hypothesis dmu_leib : forall x y, dmu (x * y) = dmu x * y + x * dmu y.
+  Hypothesis d_commute : forall x, dlon (dmu x) = dmu (dlon x).
+  Hypothesis dlon_mu : dlon mu = 0.
+  Hypothesis dmu_mu : dmu mu = PrimEqSpec.cos2 mu.
+  Hypothesis dlon_a : dlon a = 0.
+  Hypothesis dmu_a : dmu a = 0.
+  Notation cstA := (cst dlon dmu).
+  Notation zonA := (zon dlon).
 
   (** the code's flux form  X div(v) - div(v X)  is the advective form  - v . grad X *)
-  Theorem C05_flux_form_is_advective_form_formal (Uc Vc X : P -> F) p :
-    X p * sdiv P dlon dmu mu a Uc Vc p - sdiv P dlon dmu mu a (fun q => Uc q * X q) (fun q => Vc q * X q) p
-    = - (PrimEqSpec.sec2 P mu p * (Uc p * dlon X p + Vc p * dmu X p) / a).
+  Theorem C05_flux_form_is_advective_form (Uc Vc X : A) :
+    X * sdiv dlon dmu mu a Uc Vc - sdiv dlon dmu mu a (Uc * X) (Vc * X)
+    = - (PrimEqSpec.sec2 mu * (Uc * dlon X + Vc * dmu X) / a).
   Proof. apply flux_form_is_advective_form; assumption. Qed.
 
   (** div/curl of the velocity derived from (psi, chi) are lap chi / lap psi; the operators as coded
-      (d/dlon and sec d/dlat(cos^2 .) on sec^2-scaled components) are div and curl *)
-  Theorem C05_operators_formal (psi chi M N : P -> F) p :
-    sdiv P dlon dmu mu a (vel_u P dlon dmu a psi chi) (vel_v P dlon dmu a psi chi) p = slap P dlon dmu mu a chi p /\
-    scurl P dlon dmu mu a (vel_u P dlon dmu a psi chi) (vel_v P dlon dmu a psi chi) p = slap P dlon dmu mu a psi p /\
-    div_cos_lat_pt P dlon dmu mu a (fun q => M q * PrimEqSpec.sec2 P mu q) (fun q => N q * PrimEqSpec.sec2 P mu q) p = sdiv P dlon dmu mu a M N p /\
-    curl_cos_lat_pt P dlon dmu mu a (fun q => M q * PrimEqSpec.sec2 P mu q) (fun q => N q * PrimEqSpec.sec2 P mu q) p = scurl P dlon dmu mu a M N p /\
-    (forall k, slap P dlon dmu mu a (fun _ => k) p = 0).
+      (d/dlon and sec d/dlat(cos^2 .) on sec^2-scaled components) are div and curl; lap(constant) = 0 *)
+  Theorem C05_operators (psi chi M N : A) :
+    sdiv dlon dmu mu a (vel_u dlon dmu a psi chi) (vel_v dlon dmu a psi chi) = slap dlon dmu mu a chi /\
+    scurl dlon dmu mu a (vel_u dlon dmu a psi chi) (vel_v dlon dmu a psi chi) = slap dlon dmu mu a psi /\
+    div_cos_lat_pt dlon dmu mu a (M * PrimEqSpec.sec2 mu) (N * PrimEqSpec.sec2 mu) = sdiv dlon dmu mu a M N /\
+    curl_cos_lat_pt dlon dmu mu a (M * PrimEqSpec.sec2 mu) (N * PrimEqSpec.sec2 mu) = scurl dlon dmu mu a M N /\
+    (forall k, cstA k -> slap dlon dmu mu a k = 0).
   Proof.
     split; [apply div_of_velocity; assumption|].
     split; [apply curl_of_velocity; assumption|].
     split; [apply div_cos_lat_is_sdiv; assumption|].
     split; [apply curl_cos_lat_is_scurl; assumption|].
-    intros k. apply laplacian_of_constant; assumption.
+    intros k Hk. apply laplacian_of_constant; assumption.
   Qed.
 
-  Theorem C05_zonal_polynomial_derivative_formal (cs : list F) p :
-    dlon (fun q => peval cs (mu q)) p = 0 /\ dmu (fun q => peval cs (mu q)) p = PrimEqSpec.cos2 P mu p * pdiff cs (mu p).
+  Theorem C05_zonal_polynomial_derivative (cs : list A) :
+    Forall cstA cs -> dlon (peval cs mu) = 0 /\ dmu (peval cs mu) = PrimEqSpec.cos2 mu * pdiff cs mu.
   Proof.
-    assert (Z : zd P dlon dmu mu (fun q => peval cs (mu q)) (fun q => pdiff cs (mu q))) by (apply zonal_polynomial_derivative; assumption).
-    destruct Z as [Hz Hd].
-    split; [apply Hz|apply Hd].
+    intros H. assert (Z : zd dlon dmu mu (peval cs mu) (pdiff cs mu)) by (apply zonal_polynomial_derivative; assumption).
+    exact Z.
   Qed.
 
   (** primitive equations, solid-body rotation on every level in gradient-wind balance (all K, levels,
       rotation rate, radius, per-layer temperatures Tb_k + tau_k mu^2, uniform humidity q0, ln ps =
-      cst + beta mu^2, orography gam mu^2): every component of the specification tendency vanishes *)
-  Theorem C05_solid_body_steady_formal (c : @PEcfg F) (Omega grav Rv Cpv q0 cst beta gam : F) (Uk Tb tau : nat -> F) :
+      cst + beta mu^2, orography gam mu^2; all parameters constant fields): every component of the
+      specification tendency vanishes *)
+  Theorem C05_solid_body_steady (c : @PEcfg A) (Omega grav Rv Cpv q0 cst0 beta gam : A) (Uk Tb tau : nat -> A) :
+    cstA Omega -> cstA grav -> cstA q0 -> cstA cst0 -> cstA beta -> cstA gam ->
+    cstA (cR c) -> cstA (Rv / cR c) -> (forall i, cstA (cls c i)) ->
+    (forall k, cstA (Uk k)) -> (forall k, cstA (Tb k)) -> (forall k, cstA (tau k)) ->
     let mf := 1 + (Rv / cR c - 1) * q0 in
     (forall k, Uk k * (Uk k + two * a * Omega)
                + two * (grav * gam + mf * sumn (cK c) (fun j => geo_weights (cK c) (cR c) (cls c) k j * tau j))
                + two * (cR c * mf * Tb k * beta) = 0) ->
     (forall k, beta * tau k = 0) ->
-    let st := mkPES P (fun k p => - (a * Uk k) * mu p) (fun _ _ => 0)
-                    (fun k p => Tb k + tau k * (mu p * mu p)) (fun p => cst + beta * (mu p * mu p)) (fun _ _ => q0) in
-    let oro := fun p => gam * (mu p * mu p) in
-    forall k p,
-      spec_vort_tend P dlon dmu mu a c Omega Rv st k p = 0 /\
-      spec_div_tend P dlon dmu mu a c Omega grav Rv oro st k p = 0 /\
-      spec_temp_tend P dlon dmu mu a c Rv Cpv st k p = 0 /\
-      spec_lnps_tend P dlon dmu mu a c st p = 0 /\
-      spec_tracer_tend P dlon dmu mu a c st (st_q P st) k p = 0.
-  Proof.
-    apply solid_body_steady; assumption.
-  Qed.
+    let st := mkPES (fun k => - (a * Uk k) * mu) (fun _ => 0)
+                    (fun k => Tb k + tau k * (mu * mu)) (cst0 + beta * (mu * mu)) (fun _ => q0) in
+    let oro := gam * (mu * mu) in
+    forall k,
+      spec_vort_tend dlon dmu mu a c Omega Rv st k = 0 /\
+      spec_div_tend dlon dmu mu a c Omega grav Rv oro st k = 0 /\
+      spec_temp_tend dlon dmu mu a c Rv Cpv st k = 0 /\
+      spec_lnps_tend dlon dmu mu a c st = 0 /\
+      spec_tracer_tend dlon dmu mu a c st (st_q st) k = 0.
+  Proof. apply solid_body_steady; assumption. Qed.
 
   (** shallow water: ANY polynomial jets u_i = cos(lat) w_i(mu) (coefficient lists of any length), polynomial
       potentials and zonal orography in geostrophic balance, any number of layers, any density matrix *)
-  Theorem C05_sw_polynomial_jet_steady_formal (Kl : nat) (Rm : nat -> nat -> F) (ref : nat -> F) (Omega : F)
-          (ws Ps Phs : nat -> list F) (Os : list F) :
+  Theorem C05_sw_polynomial_jet_steady (Kl : nat) (Rm : nat -> nat -> A) (ref : nat -> A) (Omega : A)
+          (ws Ps Phs : nat -> list A) (Os : list A) :
+    zonA Omega -> (forall i, zonA (ref i)) -> (forall i j, cstA (Rm i j)) ->
+    (forall i, Forall cstA (ws i)) -> (forall i, Forall cstA (Ps i)) -> (forall i, Forall cstA (Phs i)) -> Forall cstA Os ->
     (forall i x, pdiff (Ps i) x = - (a * peval (ws i) x)) ->
     (forall i x, sumn Kl (fun j => Rm i j * pdiff (Phs j) x) + pdiff Os x
                  = - (x * peval (ws i) x * (peval (ws i) x + two * a * Omega))) ->
-    let st := mkSWS P (fun i p => peval (Ps i) (mu p)) (fun _ _ => 0) (fun i p => peval (Phs i) (mu p)) in
-    let oro := fun p => peval Os (mu p) in
-    forall i p,
-      sw_vort_tend P dlon dmu mu a Omega st i p = 0 /\
-      sw_div_tend P dlon dmu mu a Kl Rm Omega oro st i p = 0 /\
-      sw_pot_tend P dlon dmu mu a ref st i p = 0.
-  Proof.
-    apply sw_polynomial_jet_steady; assumption.
-  Qed.
+    let st := mkSWS (fun i => peval (Ps i) mu) (fun _ => 0) (fun i => peval (Phs i) mu) in
+    let oro := peval Os mu in
+    forall i,
+      sw_vort_tend dlon dmu mu a Omega st i = 0 /\
+      sw_div_tend dlon dmu mu a Kl Rm Omega oro st i = 0 /\
+      sw_pot_tend dlon dmu mu a ref st i = 0.
+  Proof. apply sw_polynomial_jet_steady; assumption. Qed.
 
   (** one layer, u = U0 cos(lat): the balanced height is c0 - (U0^2/2 + a Omega U0) sin^2(lat) *)
-  Theorem C05_sw_solid_body_one_layer_formal (ref : nat -> F) (Omega U0 c0 : F) :
-    let st := mkSWS P (fun _ p => - (a * U0) * mu p) (fun _ _ => 0)
-                    (fun _ p => c0 - (U0 * U0 / two + a * Omega * U0) * (mu p * mu p)) in
-    forall p,
-      sw_vort_tend P dlon dmu mu a Omega st 0%nat p = 0 /\
-      sw_div_tend P dlon dmu mu a 1 (fun _ _ => 1) Omega (fun _ => 0) st 0%nat p = 0 /\
-      sw_pot_tend P dlon dmu mu a ref st 0%nat p = 0.
-  Proof.
-    apply sw_solid_body_one_layer; assumption.
-  Qed.
+  Theorem C05_sw_solid_body_one_layer (ref : nat -> A) (Omega U0 c0 : A) :
+    cstA Omega -> cstA U0 -> cstA c0 -> (forall i, zonA (ref i)) ->
+    let st := mkSWS (fun _ => - (a * U0) * mu) (fun _ => 0)
+                    (fun _ => c0 - (U0 * U0 / two + a * Omega * U0) * (mu * mu)) in
+    sw_vort_tend dlon dmu mu a Omega st 0%nat = 0 /\
+    sw_div_tend dlon dmu mu a 1 (fun _ _ => 1) Omega 0 st 0%nat = 0 /\
+    sw_pot_tend dlon dmu mu a ref st 0%nat = 0.
+  Proof. apply sw_solid_body_one_layer; assumption. Qed.
 
   (** the formulas of shallow_water_states.one_layer (no 1/radius factors, f = sin(lat)) give the vorticity of
       the jet and a vanishing divergence tendency when radius = 1 and 2 Omega = 1; multi_layer reduces to it *)
-  Theorem C05_one_layer_formulas_balanced_formal (Omega k0 : F) (psi wf wf' pe : P -> F) :
-    a = 1 -> two * Omega = 1 ->
-    zd P dlon dmu mu wf wf' -> zd P dlon dmu mu psi (fun p => - (a * wf p)) ->
-    let vort := fun p => - Eop P dmu mu wf p in
-    (forall p, slap P dlon dmu mu a pe p = - Eop P dmu mu (fun q => wf q * (vort q + mu q)) p) ->
-    let st := mkSWS P (fun _ => psi) (fun _ _ => 0) (fun _ p => pe p - PrimEqSpec.cos2 P mu p * wf p * wf p / two + k0) in
-    forall p,
-      wzeta P dlon dmu mu a st 0%nat p = vort p /\
-      sw_div_tend P dlon dmu mu a 1 (fun _ _ => 1) Omega (fun _ => 0) st 0%nat p = 0.
-  Proof.
-    apply one_layer_formulas_balanced; assumption.
-  Qed.
+  Theorem C05_one_layer_formulas_balanced (Omega k0 psi wf wf' pe : A) :
+    a = 1 -> two * Omega = 1 -> cstA k0 ->
+    zd dlon dmu mu wf wf' -> zd dlon dmu mu psi (- (a * wf)) ->
+    let vort := - Eop dmu mu wf in
+    slap dlon dmu mu a pe = - Eop dmu mu (wf * (vort + mu)) ->
+    let st := mkSWS (fun _ => psi) (fun _ => 0) (fun _ => pe - PrimEqSpec.cos2 mu * wf * wf / two + k0) in
+    wzeta dlon dmu mu a st 0%nat = vort /\
+    sw_div_tend dlon dmu mu a 1 (fun _ _ => 1) Omega 0 st 0%nat = 0.
+  Proof. apply one_layer_formulas_balanced; assumption. Qed.
 
-  Theorem C05_multi_layer_formulas_balanced_formal (Kl : nat) (Rm : nat -> nat -> F) (Omega : F) (oro : P -> F)
-          (psi chi pot s : nat -> P -> F) i :
-    (forall p, sumn Kl (fun j => Rm i j * pot j p) = s i p) ->
-    forall p,
-      sw_div_tend P dlon dmu mu a Kl Rm Omega oro (mkSWS P psi chi pot) i p
-      = sw_div_tend P dlon dmu mu a 1 (fun _ _ => 1) Omega oro (mkSWS P (fun _ => psi i) (fun _ => chi i) (fun _ => s i)) 0%nat p.
+  Theorem C05_multi_layer_formulas_balanced (Kl : nat) (Rm : nat -> nat -> A) (Omega oro : A)
+          (psi chi pot s : nat -> A) i :
+    sumn Kl (fun j => Rm i j * pot j) = s i ->
+    sw_div_tend dlon dmu mu a Kl Rm Omega oro (mkSWS psi chi pot) i
+    = sw_div_tend dlon dmu mu a 1 (fun _ _ => 1) Omega oro (mkSWS (fun _ => psi i) (fun _ => chi i) (fun _ => s i)) 0%nat.
   Proof. apply multi_layer_formulas_balanced; assumption. Qed.
 End C05_spec.
+
+(** * non-vacuity of group (C): the ring of formal power series in mu over Qc, mu = X, radius 2,
+    d/dlon = 0, cos(lat) d/dlat = (1 - X^2) d/dX (a NON-ZERO derivation), 1/(1 - X^2) = 1 + X^2 + X^4 + ... *)
+Example C05_differential_ring_instance :
+  ring_theory (@f0 ps psOps) f1 fadd fmul fsub fopp (@eq ps) /\
+  (forall x y : ps, x / y = x * finv y) /\
+  finv ps_a * ps_a = 1 /\ finv (PrimEqSpec.cos2 ps_X) * PrimEqSpec.cos2 ps_X = 1 /\ finv (@two ps psOps) * two = 1 /\
+  (forall x y : ps, ps_dlon (x + y) = ps_dlon x + ps_dlon y) /\ (forall x y : ps, ps_dmu (x + y) = ps_dmu x + ps_dmu y) /\
+  (forall x y : ps, ps_dlon (x * y) = ps_dlon x * y + x * ps_dlon y) /\
+  (forall x y : ps, ps_dmu (x * y) = ps_dmu x * y + x * ps_dmu y) /\
+  (forall x : ps, ps_dlon (ps_dmu x) = ps_dmu (ps_dlon x)) /\
+  ps_dlon ps_X = 0 /\ ps_dmu ps_X = PrimEqSpec.cos2 ps_X /\ ps_dlon ps_a = 0 /\ ps_dmu ps_a = 0 /\
+  ps_dmu ps_X <> 0.
+Proof.
+  repeat (split; [ps_hyps|]). exact ps_dmu_nontrivial.
+Qed.
+
+Add Ring psR2 : ps_ring.
+Definition qq (x : Q) : ps := ps_c (Q2Qc x).
+Definition ps_cfg : @PEcfg ps :=
+  mkPE 2 (qq (2#7)) (qq (2#7)) (fun i => qq (nth i [-(2#1); -(1#4)] 0)%Q) (fun i => qq (nth i [0; 1#3; 1] 0)%Q) (fun _ => qq (250#1)).
+
+(** the solid-body theorem instantiated in the power-series ring: two levels, radius 2, Omega = 1/2,
+    U = 1 on both levels, g = 3, orography -mu^2/2, T = 250 and 260, q0 = 1/100 *)
+Theorem C05_solid_body_steady_series :
+  let st := mkPES (fun k => - (ps_a * qq 1) * ps_X) (fun _ => 0)
+                  (fun k => qq (inject_Z (250 + Z.of_nat k)) + 0 * (ps_X * ps_X)) (qq 1 + 0 * (ps_X * ps_X)) (fun _ => qq (1#100)) in
+  let oro := qq (-(1#2)) * (ps_X * ps_X) in
+  forall k,
+    spec_vort_tend ps_dlon ps_dmu ps_X ps_a ps_cfg (qq (1#2)) (qq (3#7)) st k = 0 /\
+    spec_div_tend ps_dlon ps_dmu ps_X ps_a ps_cfg (qq (1#2)) (qq 3) (qq (3#7)) oro st k = 0 /\
+    spec_temp_tend ps_dlon ps_dmu ps_X ps_a ps_cfg (qq (3#7)) (qq 2) st k = 0 /\
+    spec_lnps_tend ps_dlon ps_dmu ps_X ps_a ps_cfg st = 0 /\
+    spec_tracer_tend ps_dlon ps_dmu ps_X ps_a ps_cfg st (st_q st) k = 0.
+Proof.
+  apply (@solid_body_steady ps psOps ps_ring psH_div_def ps_dlon ps_dmu ps_X ps_a psH_inv_a psH_inv_c2 psH_inv_two
+           psH_dlon_add psH_dmu_add psH_dlon_leib psH_dmu_leib psH_commute psH_dlon_mu psH_dmu_mu psH_dlon_a psH_dmu_a
+           ps_cfg (qq (1#2)) (qq 3) (qq (3#7)) (qq 2) (qq (1#100)) (qq 1) 0 (qq (-(1#2)))
+           (fun _ => qq 1) (fun k => qq (inject_Z (250 + Z.of_nat k))) (fun _ => 0)); try (intros; apply ps_cst_c).
+  - apply (cst_0 ps_ring ps_dlon ps_dmu psH_dlon_add psH_dmu_add).
+  - change (cst ps_dlon ps_dmu (ps_c (Q2Qc (3#7)) / ps_c (Q2Qc (2#7)))). rewrite ps_div_c. apply ps_cst_c.
+  - intros k. apply (cst_0 ps_ring ps_dlon ps_dmu psH_dlon_add psH_dmu_add).
+  - intros k. cbv beta.
+    rewrite (sumn_zero_ring ps_ring) by (intros; cbv beta; apply ps_mul_0_r).
+    transitivity (qq 1 * (qq 1 + (1 + 1) * ps_a * qq (1#2)) + (1 + 1) * (qq 3 * qq (-(1#2)))); [unfold two; ring|].
+    change (ps_add (ps_mul (qq 1) (ps_add (qq 1) (ps_mul (ps_mul (ps_add (ps_c (@f1 Qc QcOps)) (ps_c (@f1 Qc QcOps))) (ps_c (@f1 Qc QcOps + @f1 Qc QcOps))) (qq (1#2)))))
+                   (ps_mul (ps_add (ps_c (@f1 Qc QcOps)) (ps_c (@f1 Qc QcOps))) (ps_mul (qq 3) (qq (-(1#2))))) = ps_c (@f0 Qc QcOps)).
+    unfold qq. repeat (rewrite ps_c_add || rewrite ps_c_mul). f_equal. apply Qc_is_canon. vm_compute. reflexivity.
+  - intros k. apply ps_mul_0_r.
+Qed.
+
+(** the one-layer shallow-water solid-body theorem in the power-series ring *)
+Theorem C05_sw_solid_body_series :
+  let st := mkSWS (fun _ => - (ps_a * qq 1) * ps_X) (fun _ => 0)
+                  (fun _ => qq 5 - (qq 1 * qq 1 / two + ps_a * qq (1#2) * qq 1) * (ps_X * ps_X)) in
+  sw_vort_tend ps_dlon ps_dmu ps_X ps_a (qq (1#2)) st 0%nat = 0 /\
+  sw_div_tend ps_dlon ps_dmu ps_X ps_a 1 (fun _ _ => 1) (qq (1#2)) 0 st 0%nat = 0 /\
+  sw_pot_tend ps_dlon ps_dmu ps_X ps_a (fun _ => qq 1) st 0%nat = 0.
+Proof.
+  apply (@sw_solid_body_one_layer ps psOps ps_ring psH_div_def ps_dlon ps_dmu ps_X ps_a psH_inv_a psH_inv_c2 psH_inv_two
+           psH_dlon_add psH_dmu_add psH_dlon_leib psH_dmu_leib psH_commute psH_dlon_mu psH_dmu_mu psH_dlon_a psH_dmu_a);
+    try (intros; apply ps_cst_c).
+  intros i. apply (zon_cst ps_dlon ps_dmu). apply ps_cst_c.
+Qed.
 
 (** * over the reals *)
 Definition C05_rest_isothermal_steady_R := @C05_rest_isothermal_steady R ROps RFieldC.
@@ -298,13 +359,16 @@ Print Assumptions C05_rest_isothermal_steady.
 Print Assumptions C05_primeq_column_refines_spec.
 Print Assumptions C05_primeq_column_refines_spec_moist.
 Print Assumptions C05_primeq_column_refines_momentum.
-Print Assumptions C05_flux_form_is_advective_form_formal.
-Print Assumptions C05_operators_formal.
-Print Assumptions C05_zonal_polynomial_derivative_formal.
-Print Assumptions C05_solid_body_steady_formal.
-Print Assumptions C05_sw_polynomial_jet_steady_formal.
-Print Assumptions C05_sw_solid_body_one_layer_formal.
-Print Assumptions C05_one_layer_formulas_balanced_formal.
-Print Assumptions C05_multi_layer_formulas_balanced_formal.
+Print Assumptions C05_flux_form_is_advective_form.
+Print Assumptions C05_operators.
+Print Assumptions C05_zonal_polynomial_derivative.
+Print Assumptions C05_solid_body_steady.
+Print Assumptions C05_sw_polynomial_jet_steady.
+Print Assumptions C05_sw_solid_body_one_layer.
+Print Assumptions C05_one_layer_formulas_balanced.
+Print Assumptions C05_multi_layer_formulas_balanced.
+Print Assumptions C05_differential_ring_instance.
+Print Assumptions C05_solid_body_steady_series.
+Print Assumptions C05_sw_solid_body_series.
 Print Assumptions C05_rest_isothermal_steady_R.
 Print Assumptions C05_hyps_satisfiable.
